@@ -6,6 +6,7 @@ import (
 	"fmt"
 	"sort"
 	"strings"
+	"sync/atomic"
 
 	"verifharness/hx"
 
@@ -103,12 +104,34 @@ type mctx struct {
 	engineAt int
 	note     string
 	both     bool // record the block with validate=1 and with validate=0
+	force    int  // >= 0: the variant the mutator has to take (coverage phase); -1: drawn at random
+	vidx     int  // variant taken (-1: the mutator has none)
+	mu       *mutator
+}
+
+// variant: which of the k variants of this corruption to produce. Drawn at random in the random stream, imposed in the coverage
+// phase. The number of variants is remembered in the table (the required-coverage list is derived from it).
+func (m *mctx) variant(k int) int {
+	if m.mu != nil && int(atomic.LoadInt32(&m.mu.nvar)) < k {
+		atomic.StoreInt32(&m.mu.nvar, int32(k))
+	}
+	v := m.r.Intn(k)
+	if m.force >= 0 && m.force < k {
+		v = m.force
+	}
+	m.vidx = v
+	return v
 }
 
 type mutator struct {
 	name   string
 	intent []string // acceptable rule classes ("" = unknown)
 	fn     func(m *mctx) bool
+	// coverage: forks the corruption applies to, and whether every such fork must show it in every run ("fork") or whether one
+	// occurrence per run suffices ("run": it needs a situation a chain has only now and then)
+	minFork, maxFork ForkID
+	scope            string
+	nvar             int32 // number of variants (0: none), learnt from the first call of mctx.variant
 }
 
 // ---- signing helpers for the corruption stream ----
@@ -166,7 +189,11 @@ func (m *mctx) variantDomain(dt common.BLSDomainType, epoch common.Epoch, which 
 		}
 		return common.ComputeDomain(other, ver, m.c.GVR), "domain_type"
 	case 1:
-		return common.ComputeDomain(dt, m.otherVersion(), m.c.GVR), "fork_version"
+		other := m.otherVersion()
+		for other == ver { // (for a pre-fork epoch the correct version is the previous one)
+			other = m.otherVersion()
+		}
+		return common.ComputeDomain(dt, other, m.c.GVR), "fork_version"
 	default:
 		return common.ComputeDomain(dt, ver, m.rndRoot()), "genesis_validators_root"
 	}
@@ -280,7 +307,7 @@ func mut(name string, intent string, fn func(m *mctx) bool) {
 	if intent != "" {
 		in = strings.Split(intent, "|")
 	}
-	allMutators = append(allMutators, mutator{name, in, fn})
+	allMutators = append(allMutators, mutator{name: name, intent: in, fn: fn, minFork: Phase0, maxFork: Deneb, scope: "fork"})
 }
 
 func init() {
@@ -354,7 +381,7 @@ func init() {
 		root := b.Root(m.c.Spec)
 		key := m.c.keyOfVal(b.ProposerIndex)
 		good := common.ComputeDomain(common.DOMAIN_BEACON_PROPOSER, m.stateVersion(), m.c.GVR)
-		switch m.r.Intn(8) {
+		switch m.variant(8) {
 		case 0:
 			copy(b.Signature[:], m.r.Bytes(96))
 			m.note = "random_bytes"
@@ -375,7 +402,7 @@ func init() {
 			b.Signature = m.c.BLS.Sign1(key, common.ComputeSigningRoot(m.rndRoot(), good))
 			m.note = "other_message"
 		default:
-			d, what := m.variantDomain(common.DOMAIN_BEACON_PROPOSER, m.p.Epoch, m.r.Intn(3))
+			d, what := m.variantDomain(common.DOMAIN_BEACON_PROPOSER, m.p.Epoch, m.vidx)
 			b.Signature = m.c.BLS.Sign1(key, common.ComputeSigningRoot(root, d))
 			m.note = what
 		}
@@ -395,7 +422,7 @@ func init() {
 		if err != nil {
 			return false
 		}
-		switch m.r.Intn(6) {
+		switch m.variant(6) {
 		case 0:
 			copy(b.Randao[:], m.r.Bytes(96))
 			m.note = "random_bytes"
@@ -407,7 +434,7 @@ func init() {
 			b.Randao = m.c.BLS.Sign1(m.strayKey(), common.ComputeSigningRoot(m.p.Epoch.HashTreeRoot(hFn()), good))
 			m.note = "wrong_key"
 		default:
-			d, what := m.variantDomain(common.DOMAIN_RANDAO, m.p.Epoch, m.r.Intn(3))
+			d, what := m.variantDomain(common.DOMAIN_RANDAO, m.p.Epoch, m.vidx)
 			b.Randao = m.c.BLS.Sign1(key, common.ComputeSigningRoot(m.p.Epoch.HashTreeRoot(hFn()), d))
 			m.note = what
 		}
@@ -420,7 +447,7 @@ func init() {
 			return false
 		}
 		ps := m.c.makeProposerSlashing(m.p, v, m.p.Slot)
-		switch m.r.Intn(3) {
+		switch m.variant(3) {
 		case 0:
 			ps.SignedHeader2 = ps.SignedHeader1
 			m.note = "identical"
@@ -445,20 +472,25 @@ func init() {
 		return true
 	})
 	mut("pslash_validator_not_slashable", "pslash", func(m *mctx) bool {
-		v, ok := m.find(func(i common.ValidatorIndex, f *common.FlatValidator) bool { return !m.p.slashable(i) })
+		want := m.variant(3)
+		kind := func(f *common.FlatValidator) int {
+			switch {
+			case f.Slashed:
+				return 0
+			case f.ActivationEpoch > m.p.Epoch:
+				return 1
+			}
+			return 2
+		}
+		v, ok := m.find(func(i common.ValidatorIndex, f *common.FlatValidator) bool {
+			return !m.p.slashable(i) && (m.force < 0 || kind(f) == want)
+		})
 		if !ok || uint64(len(m.p.B.ProposerSlashings)) >= uint64(m.c.Spec.MAX_PROPOSER_SLASHINGS) {
 			return false
 		}
 		m.p.B.ProposerSlashings = append(m.p.B.ProposerSlashings, m.c.makeProposerSlashing(m.p, v, m.p.Slot))
-		f := m.p.Flats[v]
-		switch {
-		case f.Slashed:
-			m.note = "already_slashed"
-		case f.ActivationEpoch > m.p.Epoch:
-			m.note = "not_yet_active"
-		default:
-			m.note = "withdrawable"
-		}
+		m.vidx = kind(&m.p.Flats[v])
+		m.note = []string{"already_slashed", "not_yet_active", "withdrawable"}[m.vidx]
 		return true
 	})
 	// slashability is judged at the CURRENT epoch: evidence dated inside the offender's window does not help once it is withdrawable
@@ -518,12 +550,14 @@ func init() {
 			return false
 		}
 		ps := m.c.makeProposerSlashing(m.p, v, m.p.Slot)
+		// variants 0..4: the first header carries the bad signature, 5..9: the second one
+		vv := m.variant(10)
 		h := &ps.SignedHeader1
-		if m.r.Bool() {
+		if vv >= 5 {
 			h = &ps.SignedHeader2
 		}
 		root := h.Message.HashTreeRoot(hFn())
-		switch m.r.Intn(5) {
+		switch vv % 5 {
 		case 0:
 			copy(h.Signature[:], m.r.Bytes(96))
 			m.note = "random_bytes"
@@ -532,7 +566,7 @@ func init() {
 			h.Signature = m.c.BLS.Sign1(m.strayKey(), common.ComputeSigningRoot(root, good))
 			m.note = "wrong_key"
 		default:
-			d, what := m.variantDomain(common.DOMAIN_BEACON_PROPOSER, m.p.Epoch, m.r.Intn(3))
+			d, what := m.variantDomain(common.DOMAIN_BEACON_PROPOSER, m.p.Epoch, vv%5)
 			h.Signature = m.c.BLS.Sign1(m.c.keyOfVal(v), common.ComputeSigningRoot(root, d))
 			m.note = what
 		}
@@ -585,7 +619,7 @@ func init() {
 			return false
 		}
 		as := m.c.makeAttesterSlashing(m.p, []common.ValidatorIndex{v}, false)
-		if m.r.Bool() {
+		if m.variant(2) == 0 {
 			as.Attestation2 = as.Attestation1
 			m.note = "same_data"
 		} else {
@@ -618,8 +652,14 @@ func init() {
 			vs = append(vs, v)
 		}
 		as := m.c.makeAttesterSlashing(m.p, vs, m.r.Bool())
-		ix := as.Attestation1.AttestingIndices
-		switch m.r.Intn(4) {
+		// variants 0..3: the first attestation is malformed, 4..7: the second one
+		vv := m.variant(8)
+		bad := &as.Attestation1
+		if vv >= 4 {
+			bad = &as.Attestation2
+		}
+		ix := bad.AttestingIndices
+		switch vv % 4 {
 		case 0:
 			ix[0], ix[1] = ix[1], ix[0]
 			m.note = "unsorted"
@@ -627,11 +667,14 @@ func init() {
 			ix[1] = ix[0]
 			m.note = "duplicate_index"
 		case 2:
-			as.Attestation1.AttestingIndices = ix[:0]
+			bad.AttestingIndices = ix[:0]
 			m.note = "empty"
 		default:
 			ix[2] = common.ValidatorIndex(len(m.p.Flats) + m.r.Intn(3))
 			m.note = "out_of_range"
+		}
+		if vv >= 4 {
+			m.note += "_in_attestation_2"
 		}
 		m.p.B.AttesterSlashings = append(m.p.B.AttesterSlashings, as)
 		return true
@@ -647,9 +690,11 @@ func init() {
 		}
 		as := m.c.makeAttesterSlashing(m.p, []common.ValidatorIndex{v}, m.r.Bool())
 		k := m.c.keyOfVal(v)
+		which := m.variant(3) // 0: both attestations malformed, 1: only the first, 2: only the second
+		m.note = []string{"both", "first_only", "second_only"}[which]
 		for _, a := range []*phase0.IndexedAttestation{&as.Attestation1, &as.Attestation2} {
-			if a == &as.Attestation2 && m.r.Bool() {
-				continue // sometimes only the first one is malformed
+			if (a == &as.Attestation2 && which == 1) || (a == &as.Attestation1 && which == 2) {
+				continue
 			}
 			a.AttestingIndices = common.CommitteeIndices{v, v}
 			dom, err := common.GetDomain(m.p.A, common.DOMAIN_BEACON_ATTESTER, a.Data.Target.Epoch)
@@ -729,7 +774,7 @@ func init() {
 		if uint64(len(m.p.B.AttesterSlashings)) >= uint64(m.c.Spec.MAX_ATTESTER_SLASHINGS) {
 			return false
 		}
-		if m.r.Bool() {
+		if m.variant(2) == 0 {
 			v, ok := m.find(func(i common.ValidatorIndex, f *common.FlatValidator) bool { return !m.p.slashable(i) })
 			if !ok {
 				return false
@@ -759,12 +804,14 @@ func init() {
 			return false
 		}
 		as := m.c.makeAttesterSlashing(m.p, []common.ValidatorIndex{v}, m.r.Bool())
+		// variants 0..4: the first attestation carries the bad signature, 5..9: the second one
+		vv := m.variant(10)
 		a := &as.Attestation1
-		if m.r.Bool() {
+		if vv >= 5 {
 			a = &as.Attestation2
 		}
 		root := a.Data.HashTreeRoot(hFn())
-		switch m.r.Intn(5) {
+		switch vv % 5 {
 		case 0:
 			copy(a.Signature[:], m.r.Bytes(96))
 			m.note = "random_bytes"
@@ -773,7 +820,7 @@ func init() {
 			a.Signature = m.c.BLS.Sign1(m.strayKey(), common.ComputeSigningRoot(root, good))
 			m.note = "wrong_key"
 		default:
-			d, what := m.variantDomain(common.DOMAIN_BEACON_ATTESTER, a.Data.Target.Epoch, m.r.Intn(3))
+			d, what := m.variantDomain(common.DOMAIN_BEACON_ATTESTER, a.Data.Target.Epoch, vv%5)
 			a.Signature = m.c.BLS.Sign1(m.c.keyOfVal(v), common.ComputeSigningRoot(root, d))
 			m.note = what
 		}
@@ -804,7 +851,7 @@ func init() {
 	}
 	attMut("att_committee_index_out_of_range", "att", func(m *mctx, a *phase0.Attestation) bool {
 		a.Data.Index = common.CommitteeIndex(uint64(m.c.Spec.MAX_COMMITTEES_PER_SLOT) + uint64(m.r.Intn(3)))
-		if m.r.Bool() {
+		if m.variant(2) == 0 {
 			n := uint64(0)
 			hx.Catch(func() { n, _ = m.p.Epc.GetCommitteeCountPerSlot(a.Data.Target.Epoch) })
 			a.Data.Index = common.CommitteeIndex(n)
@@ -821,7 +868,7 @@ func init() {
 		return true // bits may or may not fit; signature is for the other committee
 	})
 	attMut("att_target_epoch", "att", func(m *mctx, a *phase0.Attestation) bool {
-		switch m.r.Intn(3) {
+		switch m.variant(3) {
 		case 0:
 			a.Data.Target.Epoch = m.p.Epoch + 1
 			m.note = "future"
@@ -853,7 +900,7 @@ func init() {
 		return m.resignAtt(a)
 	})
 	attMut("att_source_checkpoint", "att", func(m *mctx, a *phase0.Attestation) bool {
-		if m.r.Bool() {
+		if m.variant(2) == 0 {
 			a.Data.Source.Root = m.rndRoot()
 			m.note = "root"
 		} else {
@@ -918,7 +965,7 @@ func init() {
 	})
 	attMut("att_bits_length", "att", func(m *mctx, a *phase0.Attestation) bool {
 		bits := bitsOf(a.AggregationBits)
-		if m.r.Bool() {
+		if m.variant(2) == 0 {
 			bits = append(bits, m.r.Bool())
 			m.note = "longer"
 		} else {
@@ -976,7 +1023,7 @@ func init() {
 			bits[i] = false
 		}
 		a.AggregationBits = bitlist(bits)
-		if m.r.Bool() {
+		if m.variant(2) == 0 {
 			a.Signature = InfinitySig
 			m.note = "infinity_signature"
 		}
@@ -1017,7 +1064,7 @@ func init() {
 			}
 		}
 		root := a.Data.HashTreeRoot(hFn())
-		switch m.r.Intn(6) {
+		switch m.variant(6) {
 		case 0:
 			copy(a.Signature[:], m.r.Bytes(96))
 			m.note = "random_bytes"
@@ -1030,7 +1077,7 @@ func init() {
 			a.Signature = InfinitySig
 			m.note = "infinity"
 		default:
-			d, what := m.variantDomain(common.DOMAIN_BEACON_ATTESTER, a.Data.Target.Epoch, m.r.Intn(3))
+			d, what := m.variantDomain(common.DOMAIN_BEACON_ATTESTER, a.Data.Target.Epoch, m.vidx)
 			a.Signature = m.c.BLS.Sign(keys, common.ComputeSigningRoot(root, d))
 			m.note = what
 		}
@@ -1109,9 +1156,21 @@ func init() {
 				tops = append(tops, i)
 			}
 		}
-		if len(tops) > 0 {
+		want := m.variant(5) // 0..2: an honest top-up of the block is damaged; 3, 4: a forged top-up replaces the last expected deposit
+		if m.force < 0 {
+			if len(tops) > 0 {
+				want %= 3
+			} else {
+				want = 3 + want%2
+			}
+		}
+		m.vidx = want
+		if want < 3 {
+			if len(tops) == 0 {
+				return false
+			}
 			d := &b.Deposits[tops[m.r.Intn(len(tops))]]
-			switch m.r.Intn(3) {
+			switch want {
 			case 0:
 				d.Proof[m.r.Intn(depositDepth+1)][m.r.Intn(32)] ^= 1 << uint(m.r.Intn(8))
 				m.note = "honest_topup_proof_bit"
@@ -1124,15 +1183,14 @@ func init() {
 			}
 			return true
 		}
-		// no top-up among the expected deposits: the LAST expected deposit is replaced by a forged top-up of a registered key
-		// (the proof of the replaced deposit, or zeros)
+		// the LAST expected deposit is replaced by a forged top-up of a registered key (the proof of the replaced deposit, or zeros)
 		v, ok := m.find(func(i common.ValidatorIndex, f *common.FlatValidator) bool { return true })
 		if !ok {
 			return false
 		}
 		d := &b.Deposits[len(b.Deposits)-1]
 		d.Data = common.DepositData{Pubkey: PubOf(m.c.Vals[v].Key), WithdrawalCredentials: m.credsOf(v), Amount: m.c.Spec.EFFECTIVE_BALANCE_INCREMENT * common.Gwei(1+m.r.Intn(8))}
-		if m.r.Bool() {
+		if want == 3 {
 			for i := range d.Proof {
 				d.Proof[i] = common.Root{}
 			}
@@ -1183,11 +1241,17 @@ func init() {
 		if uint64(len(b.Deposits)) >= uint64(m.c.Spec.MAX_DEPOSITS) {
 			return false
 		}
+		want := m.variant(2)
+		if m.force >= 0 && (want == 0) != (len(b.Deposits) > 0) {
+			return false
+		}
 		if len(b.Deposits) > 0 {
 			b.Deposits = append(b.Deposits, b.Deposits[len(b.Deposits)-1])
 			m.note = "repeated_last"
+			m.vidx = 0
 			return true
 		}
+		m.vidx = 1
 		// a well-formed deposit the state does not expect
 		e1, _ := m.p.A.Eth1Data()
 		n := uint64(e1.DepositCount)
@@ -1216,21 +1280,24 @@ func init() {
 		return addExit(m, m.c.makeExit(m.p, v, m.p.Epoch))
 	})
 	mut("exit_not_active_or_exited", "exit", func(m *mctx) bool {
+		want := m.variant(3)
+		kind := func(f *common.FlatValidator) int {
+			switch {
+			case f.ActivationEpoch > m.p.Epoch:
+				return 0
+			case f.ExitEpoch <= m.p.Epoch:
+				return 1
+			}
+			return 2
+		}
 		v, ok := m.find(func(i common.ValidatorIndex, f *common.FlatValidator) bool {
-			return !f.IsActive(m.p.Epoch) || f.ExitEpoch != common.Epoch(FarFuture)
+			return (!f.IsActive(m.p.Epoch) || f.ExitEpoch != common.Epoch(FarFuture)) && (m.force < 0 || kind(f) == want)
 		})
 		if !ok {
 			return false
 		}
-		f := m.p.Flats[v]
-		switch {
-		case f.ActivationEpoch > m.p.Epoch:
-			m.note = "not_yet_active"
-		case f.ExitEpoch <= m.p.Epoch:
-			m.note = "already_exited"
-		default:
-			m.note = "exit_already_initiated"
-		}
+		m.vidx = kind(&m.p.Flats[v])
+		m.note = []string{"not_yet_active", "already_exited", "exit_already_initiated"}[m.vidx]
 		return addExit(m, m.c.makeExit(m.p, v, m.p.Epoch))
 	})
 	mut("exit_future_epoch", "exit", func(m *mctx) bool {
@@ -1332,7 +1399,7 @@ func init() {
 		root := ex.Message.HashTreeRoot(hFn())
 		key := m.c.keyOfVal(v)
 		sp := m.c.Spec
-		switch m.r.Intn(7) {
+		switch m.variant(7) {
 		case 0:
 			copy(ex.Signature[:], m.r.Bytes(96))
 			m.note = "random_bytes"
@@ -1434,7 +1501,7 @@ func init() {
 		ch := m.c.makeBLSChange(v, wk, addrOf(wk))
 		root := ch.BLSToExecutionChange.HashTreeRoot(hFn())
 		sp := m.c.Spec
-		switch m.r.Intn(6) {
+		switch m.variant(6) {
 		case 0:
 			copy(ch.Signature[:], m.r.Bytes(96))
 			m.note = "random_bytes"
@@ -1504,7 +1571,7 @@ func init() {
 		prev := m.p.Slot.Previous()
 		root, _ := common.GetBlockRootAtSlot(m.c.Spec, m.p.A, prev)
 		pe := m.c.Spec.SlotToEpoch(prev)
-		switch m.r.Intn(7) {
+		switch m.variant(7) {
 		case 0:
 			copy(sa.SyncCommitteeSignature[:], m.r.Bytes(96))
 			m.note = "random_bytes"
@@ -1537,7 +1604,7 @@ func init() {
 			if len(keys) == 0 {
 				return false
 			}
-			d, what := m.variantDomain(common.DOMAIN_SYNC_COMMITTEE, pe, m.r.Intn(3))
+			d, what := m.variantDomain(common.DOMAIN_SYNC_COMMITTEE, pe, m.vidx)
 			sa.SyncCommitteeSignature = m.c.BLS.Sign(keys, common.ComputeSigningRoot(root, d))
 			m.note = what
 		}
@@ -1596,7 +1663,7 @@ func init() {
 		if !hasPayload(m) {
 			return false
 		}
-		if m.r.Bool() {
+		if m.variant(2) == 0 {
 			m.p.B.Payload.Timestamp++
 		} else {
 			m.p.B.Payload.Timestamp -= common.Timestamp(m.c.Spec.SECONDS_PER_SLOT)
@@ -1615,7 +1682,7 @@ func init() {
 			return false
 		}
 		ws := append(common.Withdrawals(nil), m.p.B.Payload.Withdrawals...)
-		switch k := m.r.Intn(6); {
+		switch k := m.variant(6); {
 		case k == 0 || len(ws) == 0:
 			if uint64(len(ws)) >= uint64(m.c.Spec.MAX_WITHDRAWALS_PER_PAYLOAD) {
 				return false
@@ -1646,7 +1713,14 @@ func init() {
 		if m.p.Fork < Deneb || uint64(m.c.Spec.MAX_BLOBS_PER_BLOCK) >= uint64(m.c.Spec.MAX_BLOB_COMMITMENTS_PER_BLOCK) {
 			return false
 		}
-		for uint64(len(m.p.B.Blobs)) <= uint64(m.c.Spec.MAX_BLOBS_PER_BLOCK) {
+		// one more than allowed, or as many as the SSZ list can hold
+		target := uint64(m.c.Spec.MAX_BLOBS_PER_BLOCK) + 1
+		m.note = "max_plus_one"
+		if m.variant(2) == 1 {
+			target = uint64(m.c.Spec.MAX_BLOB_COMMITMENTS_PER_BLOCK)
+			m.note = "list_limit"
+		}
+		for uint64(len(m.p.B.Blobs)) < target {
 			var k common.KZGCommitment
 			copy(k[:], m.r.Bytes(48))
 			m.p.B.Blobs = append(m.p.B.Blobs, k)
@@ -1657,7 +1731,7 @@ func init() {
 		if !hasPayload(m) {
 			return false
 		}
-		m.engine = pick(m.r, "invalid", "error", "none")
+		m.engine = []string{"invalid", "error", "none"}[m.variant(3)]
 		m.note = "engine_" + m.engine
 		if m.engine == "none" {
 			m.note = "engine_missing"
@@ -1697,7 +1771,7 @@ func init() {
 			}
 			return true
 		}
-		switch m.r.Intn(5) {
+		switch m.variant(5) {
 		case 0:
 			m.note = "attestations"
 			return rep(uint64(sp.MAX_ATTESTATIONS), len(b.Attestations), func() { b.Attestations = append(b.Attestations, b.Attestations[0]) })
@@ -1719,14 +1793,17 @@ func init() {
 	mut("cross_fork_container", "block_sig|fork_type", func(m *mctx) bool {
 		// the same content in the container of a neighbouring fork, signed under the state's version
 		f := m.p.Fork
-		cands := []ForkID{}
-		if f > Phase0 {
-			cands = append(cands, f-1)
+		nf := f + 1 // variant 0: the container of the next fork, 1: of the previous one
+		if m.variant(2) == 1 {
+			nf = f - 1
 		}
-		if f < Deneb {
-			cands = append(cands, f+1)
+		if m.force < 0 && (nf < Phase0 || nf > Deneb) {
+			nf = f + f - nf
+			m.vidx = 1 - m.vidx
 		}
-		nf := cands[m.r.Intn(len(cands))]
+		if nf < Phase0 || nf > Deneb {
+			return false
+		}
 		b := m.p.B
 		b.Fork = nf
 		if nf >= Altair && len(b.Sync.SyncCommitteeBits) == 0 {
@@ -1792,13 +1869,15 @@ func (c *Chain) CorruptStream(n int) {
 		if base == nil {
 			continue
 		}
-		// ~8% of the budget: random decodable bytes
-		if r.Chance(8) {
+		// ~8% of the budget (and the first pick): random decodable bytes
+		if r.Chance(8) || c.Stats.Get("corrupt.random_bytes") == 0 && c.Vars["random_bytes_tries"] < 6 {
+			c.Vars["random_bytes_tries"]++
 			c.randomBytesCase(r, hs, preState)
 			continue
 		}
 		// ~5%: the untouched block presented to another pre-state of the chain (replay across slots and forks)
-		if r.Chance(5) && len(c.Honest) > 1 {
+		if (r.Chance(5) || c.Stats.Get("corrupt.wrong_pre_state") == 0 && c.Vars["wrong_pre_tries"] < 6) && len(c.Honest) > 1 {
+			c.Vars["wrong_pre_tries"]++
 			c.wrongPreStateCase(r, hs)
 			continue
 		}
@@ -1837,20 +1916,8 @@ func (c *Chain) CorruptStream(n int) {
 		done := false
 		for _, mi := range perm {
 			mu := &allMutators[mi]
-			p := *base
-			p.B = hs.Blk.Clone()
-			p.used = map[common.ValidatorIndex]bool{}
-			p.Ops = map[string]int{}
-			p.Flats = append([]common.FlatValidator(nil), base.Flats...)
-			m := &mctx{c: c, r: r, p: &p, resign: true, fixRoot: true, validate: true, engine: hs.Engine, engineAt: -1}
-			m.opsUsed()
-			applied := false
-			panicked, pv := hx.Catch(func() { applied = mu.fn(m) })
-			if panicked {
-				c.problem("mutator %s panicked: %v", mu.name, pv)
-				continue
-			}
-			if !applied {
+			m := c.applyMutator(r, mu, base, hs, -1)
+			if m == nil {
 				continue
 			}
 			c.emitCorrupt(m, mu, hs, preState)
@@ -1864,15 +1931,11 @@ func (c *Chain) CorruptStream(n int) {
 }
 
 // MustHave: corruptions every chain should contain once when some honest step allows them.
-var MustHave = []string{"exit_same_twice", "exit_already_initiated", "aslash_duplicate_index_valid_signature",
-	"aslash_unsorted_valid_signature", "aslash_indices", "aslash_surround_reverse_order", "sync_sig_new_fork_version",
-	"pslash_pre_fork_headers_new_version", "exit_pre_fork_epoch_new_version", "att_pre_fork_target_new_version", "exit_too_young", "blschange_wrong_from_key",
-	"pslash_at_withdrawable_epoch", "aslash_at_withdrawable_epoch", "pslash_last_slashable_epoch", "aslash_last_slashable_epoch",
-	"pslash_withdrawable_evidence_inside_window", "aslash_withdrawable_evidence_inside_window", "blschange_odd_prefix_credentials", "deposit_topup_bad_proof",
-	"deposit_bad_proof", "deposit_missing", "deposit_none", "deposit_unexpected", "payload_withdrawals", "att_out_of_inclusion_window"}
+// (superseded by the coverage phase of the run, cover.go, which walks the whole table: kept empty)
+var MustHave = []string{}
 
 // MustHavePerFork: once per fork (of the forks this chain covers, see CoverForks).
-var MustHavePerFork = []string{"att_bits_shorter"}
+var MustHavePerFork = []string{}
 
 func (c *Chain) corruptBase(hs HonestStep) (*ProposeCtx, common.BeaconState) {
 	raw, fk := c.Rec.StateRaw(hs.PreID)
@@ -1891,21 +1954,30 @@ func (c *Chain) corruptBase(hs HonestStep) (*ProposeCtx, common.BeaconState) {
 	return &ProposeCtx{C: c, A: A, Epc: adv.Epc, Slot: hs.Blk.Slot, Epoch: c.Spec.SlotToEpoch(hs.Blk.Slot), Fork: StateFork(A), Flats: flats, preSlot: ps}, st
 }
 
-func (c *Chain) tryMutator(r *hx.Rng, mu *mutator, base *ProposeCtx, hs HonestStep, pre common.BeaconState) bool {
+// applyMutator runs one mutator on a private clone of the honest block (force >= 0 imposes the variant). nil when it does not apply.
+func (c *Chain) applyMutator(r *hx.Rng, mu *mutator, base *ProposeCtx, hs HonestStep, force int) *mctx {
 	p := *base
 	p.B = hs.Blk.Clone()
 	p.used = map[common.ValidatorIndex]bool{}
 	p.Ops = map[string]int{}
 	p.Flats = append([]common.FlatValidator(nil), base.Flats...)
-	m := &mctx{c: c, r: r, p: &p, resign: true, fixRoot: true, validate: true, engine: hs.Engine, engineAt: -1}
+	m := &mctx{c: c, r: r, p: &p, resign: true, fixRoot: true, validate: true, engine: hs.Engine, engineAt: -1, force: force, vidx: -1, mu: mu}
 	m.opsUsed()
 	applied := false
 	panicked, pv := hx.Catch(func() { applied = mu.fn(m) })
 	if panicked {
 		c.problem("mutator %s panicked: %v", mu.name, pv)
-		return false
+		return nil
 	}
-	if !applied {
+	if !applied || (force >= 0 && m.vidx != force && mu.nvar > 0) {
+		return nil
+	}
+	return m
+}
+
+func (c *Chain) tryMutator(r *hx.Rng, mu *mutator, base *ProposeCtx, hs HonestStep, pre common.BeaconState) bool {
+	m := c.applyMutator(r, mu, base, hs, -1)
+	if m == nil {
 		return false
 	}
 	c.emitCorrupt(m, mu, hs, pre)
@@ -2125,6 +2197,8 @@ func (c *Chain) emitCorrupt(m *mctx, mu *mutator, hs HonestStep, pre common.Beac
 		c.Rec.Comment("error: " + firstLine(derr.Error()))
 		c.Stats.Inc("corrupt_undecodable")
 		c.Stats.Inc("corrupt." + mu.name)
+		c.Stats.Inc(coverKey(mu, m.vidx))
+		c.Stats.Inc(coverKey(mu, m.vidx) + "@" + m.p.Fork.String())
 		return
 	}
 	res = RunTransition(sp, pre, nil, dec, b.Fork, m.validate, m.engine, m.engineAt, -1)
@@ -2168,6 +2242,9 @@ func (c *Chain) emitCorrupt(m *mctx, mu *mutator, hs HonestStep, pre common.Beac
 	c.Stats.Inc("corrupt." + mu.name)
 	c.Stats.Inc("corrupt_rule." + rule)
 	c.Stats.Inc("corrupt_fork." + b.Fork.String())
+	// coverage: (kind, variant) in the fork of the state the block is presented to
+	c.Stats.Inc(coverKey(mu, m.vidx))
+	c.Stats.Inc(coverKey(mu, m.vidx) + "@" + m.p.Fork.String())
 	if len(mu.intent) > 0 {
 		c.Stats.Inc("corrupt_intent_known")
 		hit := rule == "bls_decode" && m.note == "random_bytes"
